@@ -1,8 +1,8 @@
-"""C07 - the cooperative Lock (pox/lib/recoco/recoco.py).  Only this part of C07 is within reach of a per-call contract:
+"""C07 - the cooperative Lock (pox/lib/recoco/recoco.py) (the sequential protocol of the thread hand-off: c07_handoff.py):
 at most one task holds the lock, a release hands it to exactly one waiter if there is one and re-queues that waiter
 once, a non-blocking attempt never waits, and nobody waits while the lock is free (representation invariant kept by
-both operations).  The thread hand-off part of C07 (callLater, ScheduleTask, Synchronizer, the select hub's wake-up)
-is a statement about interleavings of OS threads: no contract over one call can express it - not applicable."""
+both operations).  The interleaving statement of C07 itself (callLater, ScheduleTask, Synchronizer, the select hub's wake-up
+against every thread schedule) is not decided by contracts over single calls - see c07_handoff.py for what is."""
 from pyvc.api import unit, Case, CallSpec
 from pox.lib.recoco.recoco import BaseTask, Lock
 from contracts.c06_scheduler import new_sched, Logger, log, RC
